@@ -2,14 +2,18 @@
 (***************************************************************************)
 (* Validation of executions of a real memory-adaptive flow rule against    *)
 (* property C11.  Events:                                                  *)
-(*   new    tr, low, high, lw, hw      the rule (thresholds, water marks)  *)
+(*   new    tr, low, high, lw, hw [, cb, q]   the rule (thresholds, water  *)
+(*            marks; cb = 1: throttling checker, MaxQueueingTimeMs q)      *)
 (*   probe  mem, n, k                  system_metric.SetSystemMemoryUsage( *)
 (*            mem), then n single-token api.Entry calls at one instant     *)
 (*            into an empty window: k of them were admitted                *)
+(*            (throttling rule: n requests, one per millisecond for one    *)
+(*            second after an idle time; k = admissions inside the second) *)
 (* VERDICT: the envelope (end points, range, monotone between consecutive  *)
 (* probes).  CONFORMANCE (DRIFT line, never a verdict): k = floor of the   *)
 (* exact rational interpolation, k or k - 1 accepted where the rational    *)
-(* threshold is a whole number (float rounding).                           *)
+(* threshold is a whole number (float rounding); throttling: the ceiling   *)
+(* (MemAdaptiveOps!Admits), k + 1 accepted on a whole number.              *)
 (***************************************************************************)
 EXTENDS MemAdaptiveOps, Sequences, TLC, Json
 
@@ -31,7 +35,7 @@ Drift(ok, expected) ==
 
 TNew ==
     /\ IsEvent("new")
-    /\ r' = [low |-> Ev.low, high |-> Ev.high, lw |-> Ev.lw, hw |-> Ev.hw]
+    /\ r' = [low |-> Ev.low, high |-> Ev.high, lw |-> Ev.lw, hw |-> Ev.hw, cb |-> IF "cb" \in DOMAIN Ev THEN Ev.cb ELSE 0]
     /\ pm' = -2 /\ pk' = 0                 \* no previous probe
     /\ g' = [tr |-> Ev.tr]
     /\ failed' = FALSE /\ drifted' = FALSE
@@ -46,13 +50,13 @@ TProbe ==
                 /\ (sat /\ pm # -2) => MonoOK(pm, pk, Ev.mem, Ev.k),
                 [mem |-> Ev.mem, admitted |-> Ev.k, low |-> r.low, high |-> r.high, lw |-> r.lw, hw |-> r.hw,
                  prev_mem |-> pm, prev_admitted |-> pk, model |-> ex])
-       /\ Drift(sat => (Ev.k = ex \/ (Whole(r, Ev.mem) /\ Ev.mem > r.lw /\ Ev.mem < r.hw /\ Ev.k = ex - 1)),
+       /\ Drift(sat => (Ev.k = ex \/ (Whole(r, Ev.mem) /\ Ev.mem > r.lw /\ Ev.mem < r.hw /\ Ev.k = ex + (IF r.cb = 1 THEN 1 ELSE -1))),
                 [mem |-> Ev.mem, admitted |-> Ev.k, model |-> ex])
        /\ pm' = IF sat THEN Ev.mem ELSE pm
        /\ pk' = IF sat THEN Ev.k ELSE pk
     /\ UNCHANGED <<r, g>>
 
-TInit == l = 1 /\ r = [low |-> 2, high |-> 1, lw |-> 1, hw |-> 2] /\ pm = -2 /\ pk = 0 /\ g = [tr |-> 0]
+TInit == l = 1 /\ r = [low |-> 2, high |-> 1, lw |-> 1, hw |-> 2, cb |-> 0] /\ pm = -2 /\ pk = 0 /\ g = [tr |-> 0]
          /\ failed = FALSE /\ drifted = FALSE
 TNext == TNew \/ TProbe
 TSpec == TInit /\ [][TNext]_tvars
